@@ -24,6 +24,10 @@ CARRIERS = {
     "lrd_use2": (_t("[foo]\n\n[bar]: /late\n"), "lrd"),
     "lrd_partial_eof": (_t("# Partial\n\n[foo]:\n"), "lrd"),
     "lrd_partial_eof2": (_t("para\n\n[foo]: /url\n\"unfinished title\n"), "lrd"),
+    "lrd_def_empty": (_t("# Empty targets\n\n[foo]: #\n[bar]: <>\n\n[foo] and [bar]\n"), "lrd"),
+    "lrd_def_spaces": (_t("# Spaces\n\n[ foo ]: /url\n[bar]: http://example.com/very/long/path\n\ntext\n"), "lrd"),
+    "lrd_use_spaces": (_t("# Uses\n\n[ foo ] and [ bar ][] and ![ foo ]\n"), "lrd"),
+    "lrd_use_image": (_t("# Uses\n\n![foo] and ![][bar]\n"), "lrd"),
     "lrd_in_quote": (_t("> [foo]: /quoted\n>\n> [foo]\n"), "lrd"),
     # --- headings -----------------------------------------------------------
     "h_dup_a": (_t("# Alpha\n\n## Same\n\ntext\n"), "heading"),
